@@ -8,6 +8,14 @@ package plat
 // emulation for every architecture listed in Archs, the timing platform
 // (`-timing` for gcn3/r9nano, `-timing -gpu=mi300a -arch=cdna3` for cdna3) for
 // a few configurations per entry, and `-gpus=1,2[,3,4]` for MultiGPU entries.
+// In addition this table itself was run through the sample runner (972 runs,
+// all passing): per entry and architecture the all-zero, the all-maximum and
+// several random decision sequences in emulation and on the timing platform,
+// MultiGPU entries also with 2, 3, 4 GPUs (emulation and timing) and with
+// MakeGPUCounts={1,2,4} on 1, 2 and 4 GPUs, plus -unified-gpus=1,2[,3,4] and
+// -use-unified-memory for every entry. Slowest runs: about 1 s in emulation
+// (4-GPU platform), about 10 s on the timing platform (kmeans, atax, bfs at
+// their maxima; the maxima were lowered a little after that).
 //
 // Conventions
 //   - A draw of 0 always selects the smallest / simplest value, so the all-zero
@@ -19,9 +27,10 @@ package plat
 //     passes in emulation but fails on the timing platform it is listed in
 //     BenchEmuOnlyArchs (Make accepts arch.CDNA3 for those entries too).
 //   - MakeGPUs (default 1) is the number of GPUs the caller is going to pass to
-//     SelectGPU (non-unified). Make of a MultiGPU entry draws only sizes that
-//     are admissible for that many GPUs (every GPU gets a non-empty, equal
-//     share). With MakeGPUs==1 the all-zero configuration is the smallest one.
+//     SelectGPU (non-unified); MakeGPUCounts, when set, lists several such
+//     counts. Make of a MultiGPU entry draws only sizes that are admissible for
+//     these counts (every GPU gets a non-empty, equal share). With MakeGPUs==1
+//     the all-zero configuration is the smallest one.
 //
 // Things a caller has to know
 //   - dnn/layer_benchmarks/{conv2d,im2col}: Verify() is empty; the check is
@@ -157,6 +166,25 @@ package plat
 //     spmv, stencil2d create one queue per GPU but launch on the context only.
 //     All are MultiGPU=false.
 //
+// 15. Timing platform only (r9nano and mi300a), passes in emulation: a kernel
+//     that re-reads a buffer which OTHER compute units have rewritten in an
+//     earlier launch sees stale data (the command processor flushes/invalidates
+//     the L1 caches only for the driver's FlushReq around memory copies, not
+//     between kernel launches):
+//     `bitonicsort -length=256 -timing` (512, 1024 too; Error: array[1] >
+//     array[2]; 128 = one work-group passes; `-length=512 -gpus=1,2 -timing`
+//     fails, `-length=512 -gpus=1,2,3,4 -timing` = one group per GPU passes;
+//     `-length=512 -timing -gpu=mi300a -arch=cdna3` fails),
+//     `floydwarshall -node=24 -iter=15 -timing`, `floydwarshall -node=32 -iter=16
+//     -timing` (Mismatch at row 0 col 1, expected 2 got 9; -node=16 and -iter=1
+//     pass),
+//     `pagerank -node=24 -sparsity=1 -iterations=3 -timing` (every node count
+//     > 16, i.e. more than one 64-byte line of ranks, with >= 3 iterations, both
+//     platforms: Mismatch at 9, expected 0.015703, but get 0.015721; <= 2
+//     iterations pass because no buffer is read twice).
+//     nbody ping-pongs its buffers the same way but its 1e-3 tolerance cannot
+//     see a position that is two steps old; stencil2d multiplies the halo by 0.
+//
 // OTHER FINDINGS (no configuration excluded because of them)
 //   - shoc/fft: Verify compares the two halves of the HOST input with each
 //     other and never looks at the device result. An independent 512-point DFT
@@ -172,6 +200,7 @@ package plat
 //     implemented".
 
 import (
+	"strings"
 	"fmt"
 	"math"
 
@@ -223,10 +252,19 @@ type BenchEntry struct {
 }
 
 // MakeGPUs is the number of GPUs (1..4) the caller is going to hand to
-// SelectGPU of the benchmark made next. Make of a MultiGPU entry draws only
-// sizes admissible for that many GPUs (all sizes stay admissible for one
-// GPU). Entries with MultiGPU == false ignore it.
+// SelectGPU (non-unified) of the benchmark made next. Make of a MultiGPU entry
+// draws only sizes admissible for that many GPUs (every GPU gets a non-empty,
+// equal share). Entries with MultiGPU == false ignore it. With the default 1
+// the all-zero configuration is the smallest one. A size drawn for 4 GPUs is in
+// general NOT admissible for fewer (bitonicsort: Length <= 128*gpus on the
+// timing platform; divisibility for 3): use MakeGPUCounts for that.
 var MakeGPUs = 1
+
+// MakeGPUCounts, when not empty, replaces MakeGPUs: it lists ALL the GPU counts
+// (each 1..4) with which the configuration made next is going to be run, e.g.
+// {1, 2, 4} when the same configuration is run on 1, 2 and 4 GPUs and the
+// results are compared. Make then draws only sizes admissible for every count.
+var MakeGPUCounts []int
 
 // BenchEmuOnlyArchs lists, per entry name, further architectures whose kernel
 // binary passes in EMULATION on ONE GPU but fails on the timing platform on the
@@ -246,9 +284,32 @@ var (
 	archBoth  = []string{"gcn3", "cdna3"}
 )
 
-// btGPUs returns MakeGPUs clamped to the validated range.
-func btGPUs() int {
-	return min(max(MakeGPUs, 1), 4)
+// btGPUs condenses MakeGPUCounts (or MakeGPUs): the least common multiple, the
+// smallest and the largest of the GPU counts (each clamped to 1..4).
+func btGPUs() (lcm, lo, hi int) {
+	counts := MakeGPUCounts
+	if len(counts) == 0 {
+		counts = []int{MakeGPUs}
+	}
+	lcm, lo, hi = 1, 4, 1
+	for _, g := range counts {
+		g = min(max(g, 1), 4)
+		lo, hi = min(lo, g), max(hi, g)
+		m := lcm
+		for m%g != 0 {
+			m += lcm
+		}
+		lcm = m
+	}
+	return lcm, lo, hi
+}
+
+// btGPUsFor is btGPUs for an entry whose cdna3 variant runs on one GPU only.
+func btGPUsFor(a arch.Type) (lcm, lo, hi int) {
+	if a == arch.CDNA3 {
+		return 1, 1, 1
+	}
+	return btGPUs()
 }
 
 // btRange draws an integer in [lo, hi] (0 -> lo).
@@ -265,7 +326,8 @@ var BenchTable = []BenchEntry{
 	{
 		// Length: power of two >= 2; one work-item per pair, work-groups of 64
 		// (Length/2 need not be a multiple of 64). log2(n)(log2(n)+1)/2 kernel
-		// launches. Per GPU at least one work-item: Length/2 >= gpus.
+		// launches. Per GPU at least one work-item: Length/2 >= gpus, and at
+		// most one work-group: Length <= 128*gpus (EXCLUDED 15).
 		Name: "amdappsdk/bitonicsort", Archs: archGCN3,
 		MultiGPU: true, RaceFree: true, Elementwise: true,
 		Make: makeBitonicSort,
@@ -292,14 +354,19 @@ var BenchTable = []BenchEntry{
 		// NumNodes: multiple of 8 (EXCLUDED 5); NumNodes^2 work-items in 8x8
 		// groups per iteration; NumIterations in [1, NumNodes] (0 means all).
 		// Row/column k are not modified in pass k (diagonal is 0), so the
-		// passes are race free. cdna3: emulation only (EXCLUDED 3).
+		// passes are race free. More than 16 nodes: one iteration only
+		// (EXCLUDED 15). cdna3: emulation only (EXCLUDED 3).
 		Name: "amdappsdk/floydwarshall", Archs: archGCN3,
 		MultiGPU: false, RaceFree: true, Elementwise: true,
 		Make: func(d *driver.Driver, a arch.Type, ch Drawer) (benchmarks.Benchmark, string) {
 			b := floydwarshall.NewBenchmark(d)
 			b.Arch = a
 			b.NumNodes = uint32(8 * btRange(ch, 1, 4, "fw.nodes/8"))
-			b.NumIterations = uint32(btRange(ch, 1, min(int(b.NumNodes), 16), "fw.iter"))
+			maxIter := int(b.NumNodes)
+			if b.NumNodes > 16 {
+				maxIter = 1 // EXCLUDED 15
+			}
+			b.NumIterations = uint32(btRange(ch, 1, maxIter, "fw.iter"))
 			return b, fmt.Sprintf("node=%d iter=%d", b.NumNodes, b.NumIterations)
 		},
 	},
@@ -323,14 +390,15 @@ var BenchTable = []BenchEntry{
 	{
 		// Width: multiple of 64*gpus (16x16 groups, 4x4 elements per
 		// work-item, the columns of groups are split over the GPUs);
-		// (Width/4)^2 work-items. cdna3: emulation only (EXCLUDED 3).
+		// (Width/4)^2 work-items, Width <= 256 unless the counts {3, 2 or 4}
+		// force 768. cdna3: emulation only (EXCLUDED 3).
 		Name: "amdappsdk/matrixtranspose", Archs: archGCN3,
 		MultiGPU: true, RaceFree: true, Elementwise: true,
 		Make: func(d *driver.Driver, a arch.Type, ch Drawer) (benchmarks.Benchmark, string) {
-			g := btGPUs()
+			l, _, _ := btGPUs()
 			b := matrixtranspose.NewBenchmark(d)
 			b.Arch = a
-			b.Width = 64 * g * btRange(ch, 1, 4/g, "mt.width/64g")
+			b.Width = 64 * l * btRange(ch, 1, 4/l, "mt.width/64g")
 			return b, fmt.Sprintf("width=%d", b.Width)
 		},
 	},
@@ -389,13 +457,10 @@ var BenchTable = []BenchEntry{
 		Name: "heteromark/aes", Archs: archGCN3,
 		MultiGPU: true, RaceFree: true, Elementwise: true,
 		Make: func(d *driver.Driver, a arch.Type, ch Drawer) (benchmarks.Benchmark, string) {
-			g := btGPUs()
-			if a == arch.CDNA3 {
-				g = 1
-			}
+			l, _, _ := btGPUsFor(a)
 			b := aes.NewBenchmark(d)
 			b.Arch = a
-			b.Length = 16 * g * btRange(ch, 1, 512/g, "aes.blocks/g")
+			b.Length = 16 * l * btRange(ch, 1, 512/l, "aes.blocks/g")
 			return b, fmt.Sprintf("length=%d", b.Length)
 		},
 	},
@@ -429,7 +494,8 @@ var BenchTable = []BenchEntry{
 	{
 		// One group (= one wavefront) of 64 per node; NumConnections must not
 		// exceed NumNodes^2 (the csr generator would spin forever); the sample
-		// keeps NumConnections >= NumNodes, so does this generator.
+		// keeps NumConnections >= NumNodes, so does this generator. More than
+		// 16 nodes: at most 2 iterations (EXCLUDED 15).
 		Name: "heteromark/pagerank", Archs: archBoth,
 		MultiGPU: false, RaceFree: true, Elementwise: true,
 		Make: func(d *driver.Driver, a arch.Type, ch Drawer) (benchmarks.Benchmark, string) {
@@ -438,7 +504,11 @@ var BenchTable = []BenchEntry{
 			n := btRange(ch, 1, 64, "pr.nodes")
 			b.NumNodes = uint32(n)
 			b.NumConnections = uint32(btRange(ch, n, n*n, "pr.conn"))
-			b.MaxIterations = uint32(btRange(ch, 1, 4, "pr.iter"))
+			maxIter := 4
+			if n > 16 {
+				maxIter = 2 // EXCLUDED 15
+			}
+			b.MaxIterations = uint32(btRange(ch, 1, maxIter, "pr.iter"))
 			return b, fmt.Sprintf("node=%d connections=%d iterations=%d",
 				b.NumNodes, b.NumConnections, b.MaxIterations)
 		},
@@ -447,14 +517,14 @@ var BenchTable = []BenchEntry{
 	// ---- polybench ------------------------------------------------------
 	{
 		// NX >= NY >= 1 (EXCLUDED 9); grids are rounded up to groups of 256
-		// and bounds checked. NX*NY bounded for the timing platform.
+		// and bounds checked. NY <= 32 keeps the timing platform at a few s.
 		Name: "polybench/atax", Archs: archBoth,
 		MultiGPU: false, RaceFree: true, Elementwise: true,
 		Make: func(d *driver.Driver, a arch.Type, ch Drawer) (benchmarks.Benchmark, string) {
 			b := atax.NewBenchmark(d)
 			b.Arch = a
 			b.NX = btRange(ch, 1, 288, "atax.nx")
-			b.NY = btRange(ch, 1, min(b.NX, 64), "atax.ny")
+			b.NY = btRange(ch, 1, min(b.NX, 32), "atax.ny")
 			return b, fmt.Sprintf("x=%d y=%d", b.NX, b.NY)
 		},
 	},
@@ -466,7 +536,7 @@ var BenchTable = []BenchEntry{
 			b := bicg.NewBenchmark(d)
 			b.Arch = a
 			long := btRange(ch, 1, 288, "bicg.long")
-			short := btRange(ch, 1, 64, "bicg.short")
+			short := btRange(ch, 1, 32, "bicg.short")
 			b.NX, b.NY = long, short
 			if ch.Bool(1, 2, "bicg.swap") {
 				b.NX, b.NY = short, long
@@ -505,7 +575,7 @@ var BenchTable = []BenchEntry{
 			b.Path = ""
 			b.NumNode = btRange(ch, 2, 256, "bfs.nodes")
 			if ch.Bool(1, 4, "bfs.multigroup") {
-				b.NumNode = btRange(ch, 1025, 1200, "bfs.nodes.big")
+				b.NumNode = btRange(ch, 1025, 1100, "bfs.nodes.big")
 			}
 			b.Degree = btRange(ch, 1, 6, "bfs.degree")
 			depth := btRange(ch, 1, 5, "bfs.depth")
@@ -608,6 +678,11 @@ var BenchTable = []BenchEntry{
 			b.EnableBackward = ch.Bool(1, 3, "conv.backward")
 			b.H = btSquareSide(ch, 8, b.EnableBackward,
 				b.KernelHeight, b.KernelWidth, b.PadY, b.PadX, b.StrideY, b.StrideX, "conv.hw")
+			if b.H < 0 { // no square side divides exactly in both dimensions
+				b.StrideY, b.StrideX = 1, 1
+				b.H = btSquareSide(ch, 8, b.EnableBackward,
+					b.KernelHeight, b.KernelWidth, b.PadY, b.PadX, 1, 1, "conv.hw1")
+			}
 			b.W = b.H
 			return b, fmt.Sprintf("N=%d C=%d H=%d W=%d output-channel=%d kernel=%dx%d pad-y=%d pad-x=%d "+
 				"stride-y=%d stride-x=%d backward=%v", b.N, b.C, b.H, b.W, b.KernelChannel,
@@ -649,8 +724,10 @@ var BenchTable = []BenchEntry{
 // in [1, maxSide]: S+2*pad >= kernel in both dimensions and, when exact is set,
 // (S+2*pad-kernel) divisible by the stride in both dimensions. The smallest
 // admissible side is returned for a draw of 0. kh, kw are the effective
-// (dilated) kernel sizes. There is always at least one admissible side because
-// pad <= 1 <= kernel and kernel <= 5 <= maxSide (S = kernel - 2*pad or kernel).
+// (dilated) kernel sizes. Without exact (or with strides 1) there is always an
+// admissible side because pad <= 1 <= kernel and kernel <= 5 <= maxSide; with
+// exact and strides > 1 there may be none (e.g. kernel 1x2, stride 2x2): -1 is
+// returned then, without consuming a draw.
 func btSquareSide(ch Drawer, maxSide int, exact bool, kh, kw, py, px, sy, sx int, label string) int {
 	var ok []int
 	for s := 1; s <= maxSide; s++ {
@@ -658,40 +735,41 @@ func btSquareSide(ch Drawer, maxSide int, exact bool, kh, kw, py, px, sy, sx int
 		if rh < 0 || rw < 0 {
 			continue
 		}
+		if strings.HasPrefix(label, "conv.") && (s < kh || s < kw) {
+			continue // layers.Conv2D rejects an unpadded image smaller than the kernel
+		}
 		if exact && (rh%sy != 0 || rw%sx != 0) {
 			continue
 		}
 		ok = append(ok, s)
 	}
-	if len(ok) == 0 { // unreachable for the ranges used above; stay admissible
-		return max(kh, kw)
+	if len(ok) == 0 {
+		return -1
 	}
 	return ok[ch.Intn(len(ok), label)]
 }
 
 func makeBitonicSort(d *driver.Driver, a arch.Type, ch Drawer) (benchmarks.Benchmark, string) {
-	g := 1
-	if a != arch.CDNA3 {
-		g = btGPUs()
-	}
-	minLog := 1 // smallest k with 2^(k-1) >= g
-	for (1 << (minLog - 1)) < g {
+	_, lo, hi := btGPUsFor(a)
+	minLog := 1 // smallest k with 2^(k-1) >= largest GPU count
+	for (1 << (minLog - 1)) < hi {
 		minLog++
+	}
+	maxLog := 7 // at most one work-group of 64 per GPU (EXCLUDED 15)
+	for n := lo; n > 1; n /= 2 {
+		maxLog++
 	}
 	b := bitonicsort.NewBenchmark(d)
 	b.Arch = a
-	b.Length = 1 << btRange(ch, minLog, 9, "bs.log2len")
+	b.Length = 1 << btRange(ch, minLog, maxLog, "bs.log2len")
 	b.OrderAscending = !ch.Bool(1, 2, "bs.descending")
 	return b, fmt.Sprintf("length=%d order-asc=%v", b.Length, b.OrderAscending)
 }
 
 func makeSimpleConvolution(d *driver.Driver, a arch.Type, ch Drawer) (benchmarks.Benchmark, string) {
-	g := 1
-	if a != arch.CDNA3 {
-		g = btGPUs()
-	}
+	_, _, hi := btGPUsFor(a)
 	minMask := 1
-	if g > 1 {
+	if hi > 1 {
 		minMask = 2
 	}
 	b := simpleconvolution.NewBenchmark(d)
@@ -704,10 +782,7 @@ func makeSimpleConvolution(d *driver.Driver, a arch.Type, ch Drawer) (benchmarks
 }
 
 func makeFIR(d *driver.Driver, a arch.Type, ch Drawer) (benchmarks.Benchmark, string) {
-	g := 1
-	if a != arch.CDNA3 {
-		g = btGPUs()
-	}
+	g, _, _ := btGPUsFor(a)
 	b := fir.NewBenchmark(d)
 	b.Arch = a
 	b.Length = g * btRange(ch, 1, 2048/g, "fir.length/g")
@@ -716,25 +791,19 @@ func makeFIR(d *driver.Driver, a arch.Type, ch Drawer) (benchmarks.Benchmark, st
 }
 
 func makeKMeans(d *driver.Driver, a arch.Type, ch Drawer) (benchmarks.Benchmark, string) {
-	g := 1
-	if a != arch.CDNA3 {
-		g = btGPUs()
-	}
+	g, _, _ := btGPUsFor(a)
 	b := kmeans.NewBenchmark(d)
 	b.Arch = a
-	b.NumPoints = g * btRange(ch, 1, 512/g, "km.points/g")
+	b.NumPoints = g * btRange(ch, 1, 320/g, "km.points/g")
 	b.NumClusters = btRange(ch, 1, min(8, b.NumPoints), "km.clusters")
-	b.NumFeatures = btRange(ch, 1, 16, "km.features")
+	b.NumFeatures = btRange(ch, 1, 8, "km.features")
 	b.MaxIter = btRange(ch, 1, 4, "km.iter")
 	return b, fmt.Sprintf("points=%d clusters=%d features=%d max-iter=%d",
 		b.NumPoints, b.NumClusters, b.NumFeatures, b.MaxIter)
 }
 
 func makeReLU(d *driver.Driver, a arch.Type, ch Drawer) (benchmarks.Benchmark, string) {
-	g := 1
-	if a != arch.CDNA3 {
-		g = btGPUs()
-	}
+	g, _, _ := btGPUsFor(a)
 	b := relu.NewBenchmark(d)
 	b.Arch = a
 	b.Length = g * btRange(ch, 1, 4096/g, "relu.length/g")
